@@ -4,15 +4,17 @@ T = "Tinode.Props.C10."
 
 PROP = dict(
     id="C10",
-    level_text="PARTIAL (sequential histories). Kernel-checked Lean theorems. In a topic: presence passes to a user iff the effective mode has P (permission-change and removal notices regardless) and the filters agree; a routed presence message is delivered exactly to the attached, non-originating sessions of users who pass the filters. On `me`: a notification for the subscribers who are not attached is addressed to live subscribers only and - acs, gone and (for anybody who may join) upd apart - only to those with P; a receipt relayed as {info} only to subscribers with P and R; a `me` topic passes news on to its own attached sessions only; the contact table after on / off / gone from an enabled or a muted contact, when the news is passed on (only on a change) and what is answered; the on-handshake between two users ends after two messages with both tables saying online; going online/offline addresses exactly the contacts `notifyOnOrSkip` admits. The history monitor checks on every generated history the online counts, every presence frame in a topic, every frame on `me` (attached, subscribed, P, not banned) and - whenever activity has settled - that each user on `me` was last told online about a p2p partner iff the partner is on `me`, and about a group iff it is loaded. Found and repaired this way: background sessions of new group / p2p topics never counted after going foreground (fix: 78ce72d).",
+    level_text="PARTIAL (sequential histories). Kernel-checked Lean theorems. In a topic: presence passes to a user iff the effective mode has P (permission-change and removal notices regardless) and the filters agree; a routed presence message is delivered exactly to the attached, non-originating sessions of users who pass the filters. On `me`: a notification for the subscribers who are not attached is addressed to live subscribers only and - acs, gone and (for anybody who may join) upd apart - only to those with P; a receipt relayed as {info} only to subscribers with P and R; a `me` topic passes news on to its own attached sessions only; the contact table after on / off / gone from an enabled or a muted contact, when the news is passed on (only on a change) and what is answered; the on-handshake between two users ends after two messages with both tables saying online - step by step (handshake_completes) and as one run of the hub's queue over an arbitrary world (announce_converges: the queue drains, both tables say online, nothing keeps circulating); going online/offline addresses exactly the contacts `notifyOnOrSkip` admits. The history monitor checks on every generated history the online counts, every presence frame in a topic, every frame on `me` (attached, subscribed, P, not banned) and - whenever activity has settled - that each user on `me` was last told online about a p2p partner iff the partner is on `me`, and about a group iff it is loaded. Found and repaired this way: background sessions of new group / p2p topics never counted after going foreground (fix: 78ce72d).",
     level_note="NOT covered: schedules - requests are processed one at a time and the hub's queue is drained after each, so the interleavings of the topics' goroutines with the background timer (F22) and with each other are not exhibited; user-agent (`ua`) notifications; the other requests served by a `me` topic. The convergence clause is decided by the monitor on histories and by the handshake theorems per step, not by one theorem over whole executions.",
     technique='Lean 4 proof (filter predicates, the delivery folds and the on/off handshake of the transcribed presence path) + differential correspondence of the world model + history monitor (online-count accounting, presence recipients in a topic and on me, convergence once settled)',
-    modules=["TinodeVerif.Props.C10", "TinodeVerif.Props.C10m"],
+    modules=["TinodeVerif.Props.C10", "TinodeVerif.Props.C10m", "TinodeVerif.Props.C10h"],
     theorems=[T + n for n in ['passes_iff', 'no_presence_without_P', 'pres_recipient', 'deliver_one', 'leave_decrements_once',
                               'subs_offline_entitled', 'subs_offline_never_banned', 'subs_offline_needs_P', 'single_offline_entitled', 'info_offline_entitled',
                               'forward_on_me_recipients', 'psGet_psSet_self', 'psGet_psDel_self', 'on_from_enabled_contact',
                               'off_from_enabled_contact', 'muted_contact_is_silent', 'gone_removes_contact', 'handshake_completes',
-                              'users_of_interest_addressees', 'users_of_interest_complete']],
+                              'users_of_interest_addressees', 'users_of_interest_complete',
+                              'psGet_psSet_other', 'on_from_enabled_topic', 'forwardOnMe_rest', 'deliverOff_on', 'announce_converges',
+                              'off_from_enabled_topic', 'deliverOff_off', 'going_offline_converges']],
     streams=[world.world_stream("C10")],
     seeds=dict(quick=1, thorough=4),
     rule="random histories of 30-120 requests per case (420 cases quick, 600 thorough per seed, every third a clause scenario with random parameters) over 4 users, 7 sessions (two per user, "
